@@ -188,9 +188,14 @@ def check_invalid(ctx, text, opts, name):
 
 
 def near_valid(rng, gen):
-    """A grammar statement with 1-4 token-level edits, single-blank layout."""
+    """A grammar statement with 1-4 token-level edits, single-blank layout;
+    now and then whole statements wrapped in parentheses."""
     st = gen.statement()
     toks = [t.text for t in st.toks]
+    if rng.random() < 0.12:
+        other = ' '.join(t.text for t in gen.statement().toks)
+        return '( %s ) %s ( %s )' % (' '.join(toks), rng.choice(
+            ['union all', 'union', 'except', ',', ';', '']), other)
     for _ in range(rng.randint(1, 4)):
         if not toks:
             break
